@@ -565,6 +565,13 @@ func (c *Ctx) packVariadic(sig *types.Signature, args []*Val) []*Val {
 	}
 	var elems []*Term
 	for _, a := range args[np-1:] {
+		if a.T != nil && es == SV && a.T.Sort != SV && a.Typ != nil {
+			// a non-reference value passed as interface{}: box it like the compiler does
+			fr := &Frame{c: c}
+			b, _ := fr.boxFun(a.Typ, a.T.Sort)
+			elems = append(elems, tApp(SV, b, a.T))
+			continue
+		}
 		if a.T == nil || a.T.Sort != es {
 			return args
 		}
